@@ -145,12 +145,17 @@ def h_scale_system(sym):
     s = sym.real('s', -50, 50)
     bs = {1: Pose(anymat(sym, 'a'), vec(sym, 'at')), 2: Pose(anymat(sym, 'b'), vec(sym, 'bt'))}
     cfs = [Pose(anymat(sym, 'c'), vec(sym, 'ct'))]
+    if sym.B.get('shared'):
+        # the same Pose object in several slots (a stationary Crazyflie, one base station under two ids)
+        cfs = [cfs[0], cfs[0], bs[1]]
+        bs[5] = bs[2]
     snap = snapshot(bs[1], bs[2], cfs[0])
     keys, lst = list(bs.keys()), list(cfs)
     b2, c2, f = LighthouseSystemScaler._scale_system(bs, cfs, s)
     assert f is s or sym.close(f, s)
-    assert list(b2.keys()) == keys and len(c2) == 1
-    for src, dst in ((bs[1], b2[1]), (bs[2], b2[2]), (cfs[0], c2[0])):
+    assert list(b2.keys()) == keys and len(c2) == len(lst)
+    pairs = [(bs[k], b2[k]) for k in keys] + list(zip(lst, c2))
+    for src, dst in pairs:
         assert dst is not src
         for i in range(3):
             assert sym.close(dst.translation[i], src.translation[i] * s), 'translation not multiplied by the factor'
@@ -234,6 +239,7 @@ HARNESSES = [
     Harness('deflip', h_deflip, float_model='real', goals=('flip', 'keep'), timeout=(300, 900), per_path=300),
     Harness('deflip_compose', h_deflip_compose, float_model='real', goals=('flips=00',), timeout=(600, 1800), per_path=900),
     Harness('scale_system', h_scale_system, float_model='real', goals=('scaled',), timeout=(120, 300)),
+    Harness('scale_system[shared poses]', h_scale_system, quick=dict(shared=True), float_model='real', goals=('scaled',), timeout=(120, 300)),
     Harness('scale_fixed_point', h_scale_fixed_point, float_model='real', goals=('scaled',), timeout=(300, 900), per_path=600),
     Harness('intersection', h_intersection, float_model='real', goals=('intersect',), timeout=(600, 1800), per_path=900),
 ]
